@@ -18,7 +18,13 @@ import itertools
 import math
 from fractions import Fraction
 
-import numpy as np
+import os
+
+# small dense matrices only: BLAS threads cost more than they give and oversubscribe a shared machine
+for _v in ('OPENBLAS_NUM_THREADS', 'OMP_NUM_THREADS', 'MKL_NUM_THREADS'):
+    os.environ.setdefault(_v, '1')
+
+import numpy as np  # noqa: E402
 
 from common import Stream, budget, rng_for, from_gq
 from c14 import Ladders, maxdiff, phase_diff, circuit_unitary, safe, rat
@@ -847,6 +853,103 @@ def hardening_stream(ctx, lad):
                 st.violate('S: simulate_trotter (finish / omit_final_swaps) modifies the caller\'s qubit list', case, {})
         except Exception as e:  # noqa: BLE001
             st.violate('S: repeated simulate_trotter raised %s' % type(e).__name__, case, {'exception': repr(e)[:200]})
+    # ---- (S) the SAME Hamiltonian object used twice around an in-place modification (caches keyed on the object)
+    def ops_close(a, b):
+        if len(a) != len(b):
+            return False
+        for x, y in zip(a, b):
+            if x == y:
+                continue
+            if x.qubits != y.qubits or type(x.gate) is not type(y.gate):
+                return False
+            if not cirq.approx_eq(x, y, atol=1e-12):
+                return False
+        return True
+
+    def fresh_copy(h):
+        if isinstance(h, of.DiagonalCoulombHamiltonian):
+            return of.DiagonalCoulombHamiltonian(np.array(h.one_body, dtype=complex).copy(),
+                                                 np.array(h.two_body, dtype=np.float64).copy(), h.constant)
+        return of.InteractionOperator(h.constant, np.array(h.one_body_tensor).copy(), np.array(h.two_body_tensor).copy())
+
+    def mutate(h, kind):
+        if isinstance(h, of.DiagonalCoulombHamiltonian):
+            n_ = h.one_body.shape[0]
+            if kind == 0:
+                h.one_body[1, 1] += 0.375
+                h.one_body[0, n_ - 1] += 0.25 + 0.5j
+                h.one_body[n_ - 1, 0] += 0.25 - 0.5j
+            elif kind == 1:
+                h.two_body[0, 1] += 0.625
+                h.two_body[1, 0] += 0.625
+                h.constant += 0.5
+            else:
+                h *= 1.5
+        else:
+            if kind == 0:
+                for sp in (0, 1):
+                    h.one_body_tensor[2 * 1 + sp, 2 * 1 + sp] += 0.375     # spatial orbital 1, both spins
+                h.constant += 0.5
+            elif kind == 1:
+                h.two_body_tensor *= 0.5
+            else:
+                h += eightfold(of, rng, 2)
+
+    same_cases = [('LSN', 'dch'), ('SO', 'dch'), (None, 'dch'), ('LR', 'io'), (None, 'io')]
+    for alg, hk in same_cases:
+        for kind in (0, 1, 2):
+            n = 3 if hk == 'dch' else 4
+            H = patterned_dch(of, rng, n, 'mixed') if hk == 'dch' else eightfold(of, rng, 2)
+            orders = [0] if hk == 'io' else [rng.choice([0, 1])]
+            qubits = list(cirq.LineQubit.range(n))
+            control = cirq.LineQubit(-1)
+            algo = None if alg is None else algorithm(of, alg)
+            aobj = algo if algo is not None else (algorithm(of, 'LSN') if hk == 'dch' else algorithm(of, 'LR'))
+            case = {'family': 'S', 'same_object': True, 'algorithm': alg or 'default', 'hamiltonian': hk, 'mutation': kind}
+            st.case(case)
+            st.count('S:same-object-mutated')
+            try:
+                for order in orders:
+                    def circ(h, ctl):
+                        return list(cirq.flatten_op_tree(of.simulate_trotter(
+                            qubits, h, 0.5, n_steps=2, order=order, algorithm=algo,
+                            control_qubit=control if ctl else None)))
+
+                    def steps(h):
+                        out = []
+                        for getter, ctl in (('asymmetric', False), ('symmetric', False), ('controlled_asymmetric', True),
+                                            ('controlled_symmetric', True)):
+                            stp = getattr(aobj, getter)(h)
+                            if stp is not None:
+                                out.append((getter, list(cirq.flatten_op_tree(
+                                    stp.trotter_step(qubits, 0.25, control if ctl else None)))))
+                        return out
+                    before = {ctl: circ(H, ctl) for ctl in (False, True)}
+                    steps_before = steps(H)
+                    mutate(H, kind)
+                    F = fresh_copy(H)
+                    for ctl in (False, True):
+                        oq = ([control] if ctl else []) + qubits
+                        again, fresh = circ(H, ctl), circ(F, ctl)
+                        st.float_comparisons += 2
+                        if not ops_close(again, fresh):
+                            st.violate('S: simulate_trotter on an in-place modified Hamiltonian object differs gate by gate '
+                                       'from a freshly constructed Hamiltonian with the same values', dict(case, controlled=ctl),
+                                       {'n_ops': [len(again), len(fresh)]})
+                        ua, uf = circuit_unitary(cirq, again, oq), circuit_unitary(cirq, fresh, oq)
+                        if not maxdiff(ua, uf) <= 1e-10:
+                            st.violate('S: simulate_trotter on an in-place modified Hamiltonian object: unitary differs from '
+                                       'that of a freshly constructed Hamiltonian with the same values', dict(case, controlled=ctl),
+                                       {'max_abs_difference': maxdiff(ua, uf)})
+                        if maxdiff(circuit_unitary(cirq, before[ctl], oq), uf) <= 1e-9:
+                            st.count('S:mutation-without-effect')
+                    for (g1, o1), (g2, o2) in zip(steps(H), steps(F)):
+                        if not ops_close(o1, o2):
+                            st.violate('S: step object requested again after an in-place modification of the Hamiltonian '
+                                       'differs from the step of a fresh Hamiltonian (%s)' % g1, case, {})
+                    del steps_before
+            except Exception as e:  # noqa: BLE001
+                st.violate('S: same-object simulate_trotter raised %s' % type(e).__name__, case, {'exception': repr(e)[:200]})
     # ---- (T) integer and other dtypes of InteractionOperator tensors (LOW_RANK)
     hI = eightfold(of, rng, 2)
     one_i, two_i = np.round(hI.one_body_tensor * 8), np.round(hI.two_body_tensor * 16)
